@@ -239,7 +239,7 @@ pub fn run(ctx: &Ctx) -> i32 {
     report.assumptions = vec!["rounds are single compaction passes per shard through the production CompactionWorker (hook compact_shard)".into()];
     replay_known(ctx, &stats, &mut report, &replay);
     replay_regressions(ctx, &stats, &mut report, &replay);
-    crate::props::c02::KNOWN_ID_REUSE.store(ctx.open_any("layout.segment_id_reuse"), std::sync::atomic::Ordering::Relaxed);
+    crate::props::c02::KNOWN_ID_REUSE.store(ctx.open_any("layout.stale_cache_after_id_reuse"), std::sync::atomic::Ordering::Relaxed);
     // every observation of this check is made with all data flushed: segments are per event type, so the
     // open aggregate finding (event type not applied to in-memory rows) cannot pollute COUNT here
     EXCL_COUNT.store(ctx.open("compaction.partial_drain"), std::sync::atomic::Ordering::Relaxed);
